@@ -18,4 +18,6 @@ VRootsFinal == [StdRule EXCEPT !.roots = "final"]
 VFcIgnore == [StdRule EXCEPT !.fcfork = "ignore"]
 VFcCountAll == [StdRule EXCEPT !.fccount = "all"]
 VFirstClimb == [StdRule EXCEPT !.first = "climb"]
+VCapAnc == [StdRule EXCEPT !.cap = "anc+1"]
+VShortcut == [StdRule EXCEPT !.shortcut = "anc-above"]
 ====
